@@ -27,8 +27,16 @@ def c10(ctx: Ctx):
         ctx.tlc("Gen_C10S", "Gen_C10S_run.cfg", label="F generate structured cases (orthogonal arrays)")
         shape = os.path.join(ctx.scratch, "cases_shape.ndjson")
         ns = ctx.unquote(ctx.spec("cases_shape.ndjson"), shape)
+        # the focus products (full site x value x wrap products where one decoder leaves the JSON data model)
+        text = open(ctx.spec("Gen_C10F.cfg")).read().replace("Seed = 1", "Seed = %d" % (ctx.seed % 50000))
+        open(ctx.spec("Gen_C10F_run.cfg"), "w").write(text)
+        ctx.tlc("Gen_C10F", "Gen_C10F_run.cfg", label="F generate focus products (site x value x wrap)")
+        focus = os.path.join(ctx.scratch, "cases_focus.ndjson")
+        nf = ctx.unquote(ctx.spec("cases_focus.ndjson"), focus)
         with open(cases, "a") as f:
             f.write(open(shape).read())
+            f.write(open(focus).read())
+        ns += nf
         log("[gen] %d named feature x mutation cases + %d structured cases" % (n, ns))
         ctx.extra["generator"] = dict(named_cases=n, structured_cases=ns)
         ctx.exhaustive = True
